@@ -239,6 +239,7 @@ func ruleC20(prog *Program, rep *Report) {
 		rep.Errorf("M-fresh found no sort call in package asm (floor 1)")
 	}
 	ruleCopyOrOriginal(prog, rep, 1, "asm")
+	rulePlanWrite(prog, rep)
 	// I-scratch: evaluation scratch maps are per iteration
 	rep.Rules = append(rep.Rules, "I-scratch: in package asm a map created outside a loop is not both written (m[k] = ...) and passed to a call inside that loop: the per-element evaluation context must be created in the iteration, or values left by one element are visible to the next")
 	scr := 0
